@@ -490,7 +490,11 @@ def sdss_specobjid(plate, fiber, mjd, run2d, line=None, index=None):
         fiber = np.array([fiber])
     if isinstance(mjd, int):
         mjd = np.array([mjd])
-    mjd = mjd - 50000
+    #
+    # Remove the offset in 64-bit integers: 50000 does not fit into 8- or
+    # 16-bit columns, and an unsigned column would wrap around.
+    #
+    mjd = np.asarray(mjd).astype(np.int64) - 50000
     if isinstance(run2d, str):
         try:
             run2d = np.array([int(run2d)])
